@@ -20,7 +20,10 @@ the abstract objects of `Obj/Tree.lean`:
   `Properties.Set` addressed to a path (looked up in the table like every other call);
 * the selection of the objects beneath a path is `Tree.managedKeys` (shared with the abstract model).
 
-Scope: that of C17 - one class chain, any number of instances of it.  Core Lean only.
+Scope: every instance belongs to one of any number of declared class chains (`Env.cls`, `Env.W`), each chain
+within the scope of C17 (single inheritance); the property slots are kept per class (in Python they live in
+the instance, `instance._dbusProperties`, so any partition by instance is the same thing), which makes the
+property state of class `c` literally C17's state after the operations on instances of `c`.  Core Lean only.
 -/
 import TxdbusModel.Obj.Tree
 import TxdbusModel.Obj.Props
@@ -28,18 +31,32 @@ import TxdbusModel.Obj.Props
 namespace Txdbus.Obj.TreeProps
 open Txdbus.Obj Txdbus.Obj.Tree
 
-/-- The declarations and the instances' paths. -/
+/-- The declarations (one elaborated class chain per class id), each instance's class and path. -/
 structure Env where
   cfg : Props.Cfg
-  W : Props.World
+  W : Nat → Props.World
+  cls : Nat → Nat
   pathOf : Nat → Str
 
-/-- `self.exports` (path -> instance) and the property slots of all instances. -/
+/-- The class chain of instance `n`. -/
+def Env.wOf (E : Env) (n : Nat) : Props.World := E.W (E.cls n)
+
+/-- `self.exports` (path -> instance) and, per class, the property slots of its instances. -/
 structure State where
   exports : Table Nat
-  pst : Props.St
+  pst : Nat → Props.St
 
-def State.init : State := ⟨[], Props.St.init⟩
+def State.init : State := ⟨[], fun _ => Props.St.init⟩
+
+/-- The slots of the class of instance `n`. -/
+def State.stOf (E : Env) (s : State) (n : Nat) : Props.St := s.pst (E.cls n)
+
+def upd (f : Nat → Props.St) (c : Nat) (v : Props.St) : Nat → Props.St := fun c' => if c' = c then v else f c'
+
+/-- One operation of the property layer on instance `n`: C17's `step` on the state of its class. -/
+def propStep (E : Env) (s : State) (n : Nat) (op : Props.Op) : (Nat → Props.St) × List Props.Out :=
+  let r := Props.step E.cfg (E.wOf n) (s.stOf E n) op
+  (upd s.pst (E.cls n) r.1, r.2)
 
 /-- A marshalled `a{sv}`: property name, signature of the variant, plain value. -/
 abbrev PropDict := List (Str × Str × Props.PVal)
@@ -50,7 +67,7 @@ instance : DecidableEq (Table PropDict) :=
 
 /-- `o.getAllProperties(name)`, then every value marshalled as a variant (`none`: something raised). -/
 def ifaceDict (E : Env) (st : Props.St) (n : Nat) (name : Str) : Option PropDict :=
-  (Props.getAllProperties E.cfg E.W st n name).bind fun r =>
+  (Props.getAllProperties E.cfg (E.wOf n) st n name).bind fun r =>
     r.mapM fun e => (Props.encodeVariant e.2).map fun sw => (e.1, sw.1, sw.2)
 
 /-- `i = {}; for iface in o.getInterfaces(): i[iface.name] = o.getAllProperties(iface.name)`. -/
@@ -62,7 +79,7 @@ def objDictFrom (E : Env) (st : Props.St) (n : Nat) : List Props.IfaceDef → Ta
     | some l => objDictFrom E st n fs (setItem d f.name l)
 
 def objDict (E : Env) (st : Props.St) (n : Nat) : Option (Table PropDict) :=
-  objDictFrom E st n E.W.ifaces []
+  objDictFrom E st n (E.wOf n).ifaces []
 
 inductive Op where
   | export (n : Nat)
@@ -86,25 +103,25 @@ structure StepResult where
 
 def step (E : Env) (s : State) : Op → StepResult
   | .export n =>
-    match objDict E s.pst n with
-    | none => ⟨⟨s.exports, (Props.step E.cfg E.W s.pst (.export n)).1⟩, [], true, []⟩   -- C17: `raised`, no change
+    match objDict E (s.stOf E n) n with
+    | none => ⟨⟨s.exports, (propStep E s n (.export n)).1⟩, [], true, []⟩   -- C17: `raised`, no change
     | some d =>
-      ⟨⟨setItem s.exports (E.pathOf n) n, (Props.step E.cfg E.W s.pst (.export n)).1⟩,
+      ⟨⟨setItem s.exports (E.pathOf n) n, (propStep E s n (.export n)).1⟩,
         [.interfacesAdded (E.pathOf n) (E.pathOf n) d], false, []⟩
   | .unexport p =>
     match lookup s.exports p with
     | none => ⟨s, [], true, []⟩
     | some n =>
       ⟨⟨delItem s.exports p, s.pst⟩,
-        [.interfacesRemoved (E.pathOf n) (E.pathOf n) (E.W.ifaces.map fun f => f.name)], false, []⟩
+        [.interfacesRemoved (E.pathOf n) (E.pathOf n) ((E.wOf n).ifaces.map fun f => f.name)], false, []⟩
   | .assign n a v =>
-    let r := Props.step E.cfg E.W s.pst (.assign n a v)
+    let r := propStep E s n (.assign n a v)
     ⟨⟨s.exports, r.1⟩, [], r.2 == [.raised], r.2⟩
   | .set p i pn v =>
     match lookup s.exports p with
     | none => ⟨s, [], false, [.err .unknownObject]⟩
     | some n =>
-      let r := Props.step E.cfg E.W s.pst (.set n i pn v)
+      let r := propStep E s n (.set n i pn v)
       ⟨⟨s.exports, r.1⟩, [], false, r.2⟩
 
 def runFrom (E : Env) (s : State) : List Op → State
@@ -124,7 +141,7 @@ instance : DecidableEq (List Entry) :=
 /-- `getManagedObjects(objectPath)`; `none`: collecting or marshalling raised. -/
 def managedReply (E : Env) (s : State) (p : Str) : Option (List Entry) :=
   (managedKeys p s.exports).mapM fun k =>
-    (lookup s.exports k).bind fun n => (objDict E s.pst n).map fun d => (k, d)
+    (lookup s.exports k).bind fun n => (objDict E (s.stOf E n) n).map fun d => (k, d)
 
 inductive Reply where
   | managed (entries : List Entry)
@@ -147,28 +164,30 @@ def handleManaged (E : Env) (s : State) (p : Str) : Reply :=
 each with the token "this instance" (what `getAllProperties` returns for it is evaluated when asked, on
 the property state of that moment), and whether its announcement can be built now. -/
 def absObj (E : Env) (st : Props.St) (n : Nat) : Obj :=
-  { path := E.pathOf n, ifaces := E.W.ifaces.map fun f => (f.name, n), sendable := (objDict E st n).isSome }
+  { path := E.pathOf n, ifaces := (E.wOf n).ifaces.map fun f => (f.name, n), sendable := (objDict E st n).isSome }
 
 /-- The export / unexport calls of a history, as the abstract model sees them. -/
 def absHistFrom (E : Env) (s : State) : List Op → List Txdbus.Obj.Op
   | [] => []
-  | .export n :: h => .export (absObj E s.pst n) :: absHistFrom E (step E s (.export n)).state h
+  | .export n :: h => .export (absObj E (s.stOf E n) n) :: absHistFrom E (step E s (.export n)).state h
   | .unexport p :: h => .unexport p :: absHistFrom E (step E s (.unexport p)).state h
   | op :: h => absHistFrom E (step E s op).state h
 
 def absHist (E : Env) (h : List Op) : List Txdbus.Obj.Op := absHistFrom E State.init h
 
-/-- The operations of a history that concern the property layer, as a C17 history. -/
-def propHistFrom (E : Env) (s : State) : List Op → List Props.Op
+/-- The operations of a history that concern the property layer of class `c`, as a C17 history. -/
+def propHistFrom (E : Env) (c : Nat) (s : State) : List Op → List Props.Op
   | [] => []
-  | .export n :: h => .export n :: propHistFrom E (step E s (.export n)).state h
-  | .unexport p :: h => propHistFrom E (step E s (.unexport p)).state h
-  | .assign n a v :: h => .assign n a v :: propHistFrom E (step E s (.assign n a v)).state h
+  | .export n :: h =>
+    (if E.cls n = c then [Props.Op.export n] else []) ++ propHistFrom E c (step E s (.export n)).state h
+  | .unexport p :: h => propHistFrom E c (step E s (.unexport p)).state h
+  | .assign n a v :: h =>
+    (if E.cls n = c then [Props.Op.assign n a v] else []) ++ propHistFrom E c (step E s (.assign n a v)).state h
   | .set p i pn v :: h =>
     (match lookup s.exports p with
-      | some n => [Props.Op.set n i pn v]
-      | none => []) ++ propHistFrom E (step E s (.set p i pn v)).state h
+      | some n => if E.cls n = c then [Props.Op.set n i pn v] else []
+      | none => []) ++ propHistFrom E c (step E s (.set p i pn v)).state h
 
-def propHist (E : Env) (h : List Op) : List Props.Op := propHistFrom E State.init h
+def propHist (E : Env) (c : Nat) (h : List Op) : List Props.Op := propHistFrom E c State.init h
 
 end Txdbus.Obj.TreeProps
